@@ -333,7 +333,12 @@ Spec == Init /\ [][Next]_vars
 
 \* the history and the last operation are not part of a state's identity: every
 \* TRANSITION is still generated and checked against the action properties
-View == <<S, gh>>
+\* Nor are the current model (nothing reads it) and what is left of closed models
+\* (their last name, definitions, values): no operation is made on a closed
+\* model and nothing in the registry depends on them.
+OpenOnly(f, dflt) == [i \in DOMAIN f |-> IF i \in gh.open THEN f[i] ELSE dflt]
+View == <<S.reg, OpenOnly(S.nm, ""), S.mctr, S.bctr, OpenOnly(S.d, 0), OpenOnly(S.v, 0),
+          S.into, S.panic, gh>>
 
 \* state predicates
 Inv_C19_NamesUniqueAndCurrent == NamesUniqueAndCurrent(Obs(S), gh)
